@@ -35,13 +35,10 @@ ANCHORS = [
     ('lightning-block-sync/src/poll.rs', r'let\s+chain_tip\s*=\s*self\.block_source\.get_header\(&block_hash,\s*height\)\.await\?\.validate\(block_hash\)\?;', 'poll_chain_tip: the tip header is fetched and validated against the best-block hash'),
     ('lightning-block-sync/src/poll.rs', r'\.get_header\(previous_hash,\s*Some\(height\)\)\s*\.await\?\s*\.validate\(\*previous_hash\)\?;\s*header\.check_builds_on\(&previous_header,\s*self\.network\)\?;', 'look_up_previous_header: validate against prev_blockhash, then check_builds_on'),
     ('lightning-block-sync/src/poll.rs', r'async move \{ self\.block_source\.get_block\(&header\.block_hash\)\.await\?\.validate\(header\.block_hash\) \}', 'fetch_block: validate against the header hash'),
-    ('lightning-block-sync/src/lib.rs', r'for\s+header\s+in\s+connected_blocks\.drain\(\.\.\)\.rev\(\)', 'connect_blocks: oldest first'),
     ('lightning-block-sync/src/lib.rs', r'\.map_err\(\|e\|\s*\(e,\s*Some\(new_tip\)\)\)\?', 'connect_blocks: fetch error reports new_tip'),
-    ('lightning-block-sync/src/lib.rs', r'self\.header_cache\.block_connected\(header\.block_hash,\s*header\);\s*new_tip\s*=\s*header;', 'connect_blocks: cache and advance after notifying'),
     ('lightning-block-sync/src/lib.rs', r'match\s+self\.header_cache\.look_up\(&header\.header\.prev_blockhash\)\s*\{\s*Some\(prev_header\)\s*=>\s*Ok\(\*prev_header\),\s*None\s*=>\s*chain_poller\.look_up_previous_header\(header\)\.await,', 'ChainNotifier::look_up_previous_header: cache first'),
     ('lightning-block-sync/src/lib.rs', r'Ok\(_\)\s*=>\s*\{\s*self\.chain_tip\s*=\s*best_chain_tip;\s*true\s*\},', 'update_chain_tip: Ok arm'),
     ('lightning-block-sync/src/lib.rs', r'ChainTip::Common\s*=>\s*false,\s*ChainTip::Better\(chain_tip\)\s*=>\s*\{.*?self\.update_chain_tip\(chain_tip\)\.await\s*\},\s*ChainTip::Worse\(chain_tip\)\s*=>\s*\{.*?false\s*\},', 'poll_best_tip: only Better updates'),
-    ('lightning-block-sync/src/init.rs', r'for\s+header\s+in\s+most_connected_blocks\.iter\(\)\.rev\(\)\.take\(MAX_BLOCKS_AT_ONCE\)', 'synchronize_listeners: batch = oldest MAX_BLOCKS_AT_ONCE'),
     ('lightning-block-sync/src/init.rs', r'let\s+block\s*=\s*block_res\?;\s*header_cache\.block_connected\(header\.block_hash,\s*\*header\);', 'synchronize_listeners: a failed fetch returns before the batch is delivered'),
 ]
 
@@ -336,12 +333,24 @@ def gen(srcs):
         'ChainTip::Better(chain_tip) => { debug_assert_ne!(chain_tip.block_hash, self.chain_tip.block_hash); debug_assert!(chain_tip.chainwork > self.chain_tip.chainwork); '
         'self.update_chain_tip(chain_tip).await }, ChainTip::Worse(chain_tip) => { debug_assert_ne!(chain_tip.block_hash, self.chain_tip.block_hash); '
         'debug_assert!(chain_tip.chainwork <= self.chain_tip.chainwork); false }, }; Ok((chain_tip, blocks_connected)) }', 'lib.rs poll_best_tip')
-    pin(body_of(lib, 'connect_blocks'),
-        '{ for header in connected_blocks.drain(..).rev() { let height = header.height; '
+    def order_of(expr, var, what):
+        """iteration order of a Vec stored tip-first: `.rev()` = oldest first"""
+        e = expr.replace(' ', '')
+        if e in (var + '.drain(..).rev()', var + '.iter().rev()'): return '(List.reverse %s)' % var
+        if e in (var + '.drain(..)', var + '.iter()'): return var
+        raise Bad('%s: iteration `%s` is not one the translator knows' % (what, expr))
+    o1, hgt, nt = pin(body_of(lib, 'connect_blocks'),
+        '{ for header in «» { let height = «»; '
         'let block_data = chain_poller.fetch_block(&header).await.map_err(|e| (e, Some(new_tip)))?; debug_assert_eq!(block_data.block_hash, header.block_hash); '
         'match block_data.deref() { BlockData::FullBlock(block) => { self.chain_listener.block_connected(block, height); }, '
         'BlockData::HeaderOnly(header) => { self.chain_listener.filtered_block_connected(header, &[], height); }, } '
-        'self.header_cache.block_connected(header.block_hash, header); new_tip = header; } Ok(()) }', 'lib.rs connect_blocks')
+        'self.header_cache.block_connected(header.block_hash, header); new_tip = «»; } Ok(()) }', 'lib.rs connect_blocks')
+    d('lib.rs connect_blocks: `for header in %s` — connected_blocks is stored tip first; the order in which the blocks are fetched and connected' % o1,
+      'abbrev connectOrder (connected_blocks : List Hdr) : List Hdr :=\n  ' + order_of(o1, 'connected_blocks', 'connect_blocks'))
+    d('lib.rs connect_blocks: `let height = %s` — the height handed to block_connected / filtered_block_connected with each block' % hgt,
+      'abbrev connectHeight (header : Hdr) : Nat :=\n  ' + tr(hgt))
+    d('lib.rs connect_blocks: after notifying and caching, `new_tip = %s` (what a later fetch error reports as `Err((_, Some(new_tip)))`)' % nt,
+      'abbrev connectNewTip (header : Hdr) : Hdr :=\n  ' + tr(nt))
     h1, h2 = pin(body_of(lib, 'disconnect_blocks'),
         '{ self.header_cache.blocks_disconnected(&fork_point); let best_block = BlockLocator::new(«», «»); self.chain_listener.blocks_disconnected(best_block); }',
         'lib.rs disconnect_blocks')
@@ -363,17 +372,17 @@ def gen(srcs):
         'block_source.get_header(&best_block_hash, best_block_height).await?.validate(best_block_hash) }', 'init.rs validate_best_block_header')
     k1 = b.find('for (old_best_block, chain_listener) in chain_listeners.drain(..) {')
     k2 = _match_brace(b, b.index('{', k1))
-    pin(b[:k1] + '<LISTENER-LOOP>' + b[k2:],
+    _c1, _c2, o2, bh, _dl = pin(b[:k1] + '<LISTENER-LOOP>' + b[k2:],
         '{ let best_header = validate_best_block_header(&*block_source).await?; let mut chain_poller = ChainPoller::new(block_source, network); '
         'let mut chain_listeners_at_height = Vec::new(); let mut most_connected_blocks = Vec::new(); let mut header_cache = HeaderCache::new(); '
         'header_cache.retain_on_disconnect = true; <LISTENER-LOOP> while !most_connected_blocks.is_empty() { '
         '#[cfg(not(test))] const MAX_BLOCKS_AT_ONCE: usize = «»; #[cfg(test)] const MAX_BLOCKS_AT_ONCE: usize = «»; '
         'let mut fetch_block_futures = Vec::with_capacity(core::cmp::min(MAX_BLOCKS_AT_ONCE, most_connected_blocks.len())); '
-        'for header in most_connected_blocks.iter().rev().take(MAX_BLOCKS_AT_ONCE) { let fetch_future = chain_poller.fetch_block(header); '
+        'for header in «».take(MAX_BLOCKS_AT_ONCE) { let fetch_future = chain_poller.fetch_block(header); '
         'fetch_block_futures .push(ResultFuture::Pending(Box::pin(async move { (header, fetch_future.await) }))); } '
         'let results = MultiResultFuturePoller::new(fetch_block_futures).await.into_iter(); const NO_BLOCK: Option<(u32, crate::poll::ValidatedBlock)> = None; '
         'let mut fetched_blocks = [NO_BLOCK; MAX_BLOCKS_AT_ONCE]; for ((header, block_res), result) in results.into_iter().zip(fetched_blocks.iter_mut()) { '
-        'let block = block_res?; header_cache.block_connected(header.block_hash, *header); *result = Some((header.height, block)); } '
+        'let block = block_res?; header_cache.block_connected(header.block_hash, *header); *result = Some((«», block)); } '
         'debug_assert!(fetched_blocks.iter().take(most_connected_blocks.len()).all(|r| r.is_some())); '
         'debug_assert!(fetched_blocks.windows(2).all(|blocks| { if let (Some(a), Some(b)) = (&blocks[0], &blocks[1]) { a.0 < b.0 } else { blocks[1].is_none() } })); '
         'for (listener_height, listener) in chain_listeners_at_height.iter() { for (height, block_data) in fetched_blocks.iter().flatten() { if «» { '
@@ -381,6 +390,10 @@ def gen(srcs):
         'BlockData::HeaderOnly(header_data) => { listener.filtered_block_connected(&header_data, &[], *height); }, } } } } '
         'most_connected_blocks .truncate(most_connected_blocks.len().saturating_sub(MAX_BLOCKS_AT_ONCE)); } header_cache.retain_on_disconnect = false; '
         'Ok((header_cache, best_header)) }', 'init.rs synchronize_listeners (everything around the translated listener loop)')
+    d('init.rs synchronize_listeners, second loop: `for header in %s.take(MAX_BLOCKS_AT_ONCE)` — most_connected_blocks is stored tip first; the order in which batches are cut, fetched and delivered' % o2,
+      'abbrev batchOrder (most_connected_blocks : List Hdr) : List Hdr :=\n  ' + order_of(o2, 'most_connected_blocks', 'synchronize_listeners batch loop'))
+    d('init.rs synchronize_listeners, second loop: `*result = Some((%s, block))` — the height compared with the listener height and handed to block_connected' % bh,
+      'abbrev batchHeight (header : Hdr) : Nat :=\n  ' + tr(bh))
     pin(body_of(poll, 'fetch_block', after='for ChainPoller<B, T>'),
         '{ async move { self.block_source.get_block(&header.block_hash).await?.validate(header.block_hash) } }', 'poll.rs ChainPoller::fetch_block')
     pin(body_of(poll, 'get_header', after='impl<B: Deref<Target = T> + Sized + Send + Sync, T: BlockSource + ?Sized> ChainPoller'),
